@@ -1745,6 +1745,10 @@ def oracle_rollback(ctx, props, hs, ordn, before, after, sb, base, rec):
             cls = 'K6a'
         elif any(sn['flt'] is not None for sn in later) and p not in s_paths and p not in {d['path'] for d in H['D']}:
             cls = 'K6a'
+        elif p not in s_paths and want is not None and got is None and p in {d['path'] for d in H['D']}:
+            # class K6d: right after S the file lay on disk UNMANAGED (S does not list it: its root was switched off at S),
+            # the head manages it, so rollback — which deletes what the head lists beyond S — removes it
+            cls = 'K6d'
         what = 'after rollback %s differs from its state right after the snapshot (%s)' % (p, 'absent then' if want is None else ('missing now' if got is None else 'other bytes'))
         r2 = dict(rec, path=p, cls=cls)
         if cls and ctx.is_known(cls):
@@ -1791,6 +1795,7 @@ KNOWN_TEXT = {
     'K6a': 'rollback across target-filtered deploys / bootstraps: files of targets the chosen or the head snapshot does not cover are deleted or left behind',
     'K6b': 'rollback after an adopt: the adopted user file is deleted instead of restored to its pre-adopt content',
     'K6c': 'rollback leaves behind a manifest that was first written after the chosen snapshot',
+    'K6d': 'rollback to S deletes a file that lay on disk unmanaged right after S (its root was switched off at S, the file left behind) when the current head manages it again',
     'K15a': 'bootstrap and deploy sharing a root rewrite the manifest from their own desired state only: files written by the other command drop out of the manifest',
     'K15c': 'evolve restore writes a missing desired file without recording it in the manifest',
     'K15d': 'rollback while a bootstrap is the head: files a deploy wrote after the chosen snapshot stay on disk (the bootstrap head does not record them) but the restored manifests do not list them (same mechanism as K6a)',
